@@ -127,6 +127,7 @@ class State:
         self.log = []        # ghost call log
         self.cut = None      # set when the path ended at a loop cut point
         self.nfresh = 0
+        self.typed = {}      # (base key, offset, nbytes) -> (value, mem) : last whole-value store still valid
 
     def copy(self):
         s = State()
@@ -139,18 +140,25 @@ class State:
         s.ghost = dict(self.ghost)
         s.log = list(self.log)
         s.nfresh = self.nfresh
+        s.typed = dict(self.typed)
         return s
 
 
 class MemView:
     """Read-only snapshot of memory used by contracts."""
 
-    def __init__(self, ex, bytes_, mem):
+    def __init__(self, ex, bytes_, mem, typed=None):
         self.ex = ex
         self.bytes = bytes_
         self.mem = mem
+        self.typed = typed or {}
 
     def load(self, ptr, nbytes):
+        if self.typed and isinstance(ptr, Ptr) and (ptr.obj is None or ptr.obj.kind == 'extglobal'):
+            base, off = self.ex._addr_key(self.ex.ptr_to_bv(ptr))
+            v = self.typed.get((base, off, nbytes))
+            if v is not None:
+                return v
         return self.ex._load_raw(self.bytes, self.mem, ptr, nbytes, None)
 
     def load_ptr(self, ptr):
@@ -421,10 +429,26 @@ class Engine:
 
     def _byte_term(self, b):
         if isinstance(b, tuple):
-            _, p, k = b
+            tag, p, k = b
+            if tag == 'x':      # byte k of the integer value p (kept whole so that a matching load returns p itself)
+                return simp(z3.Extract(8 * k + 7, 8 * k, p))
             v = self.ptr_to_bv(p)
             return simp(z3.Extract(8 * k + 7, 8 * k, v))
         return b
+
+    @staticmethod
+    def _addr_key(addr):
+        """(base key, constant offset) of an address term"""
+        a = simp(addr)
+        if z3.is_bv_value(a):
+            return ('#', a.as_long())
+        if a.decl().kind() == z3.Z3_OP_BADD and len(a.children()) == 2:
+            x, y = a.children()
+            if z3.is_bv_value(x):
+                return (y.sexpr(), x.as_long())
+            if z3.is_bv_value(y):
+                return (x.sexpr(), y.as_long())
+        return (a.sexpr(), 0)
 
     def _load_raw(self, bytes_, mem, ptr, n, st, want_ptr=False):
         if isinstance(ptr, FnPtr):
@@ -468,10 +492,16 @@ class Engine:
         if o < 0 or o + n > obj.size:
             raise OutOfReach('concrete out-of-bounds access %s[%d..%d)' % (obj.name, o, o + n))
         bs = data[o:o + n]
-        if n == self.pbytes and all(isinstance(b, tuple) for b in bs):
+        if n == self.pbytes and all(isinstance(b, tuple) and b[0] == 'p' for b in bs):
             p0 = bs[0][1]
             if all(b[1] is p0 and b[2] == k for k, b in enumerate(bs)):
                 return p0
+        if all(isinstance(b, tuple) and b[0] == 'x' for b in bs):
+            v0 = bs[0][1]
+            if v0.size() == 8 * n and all(b[1] is v0 and b[2] == k for k, b in enumerate(bs)):
+                if want_ptr:
+                    return self.bv_to_ptr(st, v0) if st is not None else Ptr(None, v0)
+                return v0
         for k in range(n):
             if bs[k] is None:
                 bs[k] = self.fresh('uninit_%s_%d' % (obj.name.strip('@%'), o + k), 8)
@@ -491,7 +521,12 @@ class Engine:
         if isinstance(rty, ir.IntTy):
             n = (rty.bits + 7) // 8
             self._bounds_ob(st, ptr, n, ins)
-            v = self._load_raw(st.bytes, st.mem, ptr, n, st)
+            v = None
+            if (ptr.obj is None or ptr.obj.kind == 'extglobal') and st.typed:
+                base, off = self._addr_key(self.ptr_to_bv(ptr))
+                v = st.typed.get((base, off, n))
+            if v is None:
+                v = self._load_raw(st.bytes, st.mem, ptr, n, st)
             if isinstance(v, (Ptr, FnPtr)):
                 v = self.ptr_to_bv(v)
             if rty.bits != 8 * n:
@@ -522,6 +557,10 @@ class Engine:
             raise OutOfReach('store through function pointer')
         if ptr.obj is None or ptr.obj.kind == 'extglobal':
             addr = self.ptr_to_bv(ptr)
+            base, off = self._addr_key(addr)
+            for key in list(st.typed):
+                if key[0] != base or not (key[1] + key[2] <= off or off + n <= key[1]):
+                    del st.typed[key]
             m = st.mem
             for k in range(n):
                 m = z3.Store(m, simp(addr + BV(k, self.pbits)), self._byte_term(bs[k]))
@@ -570,15 +609,19 @@ class Engine:
             n = (rty.bits + 7) // 8
             v = val
             if rty.bits != 8 * n:
-                v = z3.ZeroExt(8 * n - rty.bits, v)
-            bs = [simp(z3.Extract(8 * k + 7, 8 * k, v)) for k in range(n)]
+                v = simp(z3.ZeroExt(8 * n - rty.bits, v))
+            bs = [('x', v, k) for k in range(n)] if n > 1 else [v]
             self.store_bytes(st, ptr, bs, ins)
+            if ptr.obj is None or ptr.obj.kind == 'extglobal':
+                base, off = self._addr_key(self.ptr_to_bv(ptr))
+                st.typed[(base, off, n)] = v
             return
         raise OutOfReach('store of type %r' % (ty,))
 
     def havoc(self, st, ptr, n, tag='havoc'):
         bs = [self.fresh(tag, 8) for _ in range(n)]
         if ptr.obj is None or ptr.obj.kind == 'extglobal':
+            st.typed.clear()
             addr = self.ptr_to_bv(ptr)
             m = st.mem
             for k in range(n):
@@ -785,7 +828,7 @@ class LoopSpec:
 class Contract:
     def __init__(self, name, requires=None, ensures=None, assigns=None, loops=None, transparent=False,
                  pure=False, extern=False, props=(), unroll=None, model=None, ghost_init=None, inputs=None,
-                 note=None, cases=None):
+                 note=None, cases=None, logic=None):
         self.name = name
         self.requires = requires or (lambda c: [])
         self.ensures = ensures or (lambda c: [])
@@ -801,6 +844,7 @@ class Contract:
         self.inputs = inputs
         self.note = note
         self.cases = cases           # optional list of (label, f(c)->bool) case split over the precondition
+        self.logic = logic           # 'int': obligations are first tried in the integer abstraction (vc/intblast.py)
 
 
 class LoopCtx:
@@ -811,7 +855,7 @@ class LoopCtx:
         self.st = st
         self.frame = frame
         self.c = ctx
-        self.mem = MemView(ex, st.bytes, st.mem)
+        self.mem = MemView(ex, st.bytes, st.mem, st.typed)
 
     def var(self, name, signed=None):
         o = self.frame.allocas[name]
@@ -989,6 +1033,9 @@ class Executor(Engine):
             if self.paths_top > self.opt['max_paths']:
                 raise Undecided('%s: path budget of %d exceeded' % (contract.name, self.opt['max_paths']))
         self.covers.append((contract.name, 'paths', self.paths_top))
+        if contract.logic:
+            for o in self.obligations[first_ob:]:
+                o.info['logic'] = contract.logic
         return self.obligations[first_ob:]
 
     def _push_frame(self, st, fn, args, ret_dest, call_ins):
@@ -1303,7 +1350,7 @@ class Executor(Engine):
 
     # ---- function exit ---------------------------------------------------------------
     def _finish(self, st, contract, ctx, rv, ins):
-        new = MemView(self, st.bytes, st.mem)
+        new = MemView(self, st.bytes, st.mem, dict(st.typed))
         c2 = Ctx(self, ctx.fn, ctx.args, ctx.old, new=new, result=rv, state=st)
         c2.fn_params = ctx.fn_params
         c2.ghost = st.ghost
@@ -1387,7 +1434,7 @@ class Executor(Engine):
     def _apply_contract(self, st, ins, c, args, f2, dem):
         self.stats['contract_calls'] += 1
         fr = st.frames[-1]
-        old = MemView(self, {k: list(v) for k, v in st.bytes.items()}, st.mem)
+        old = MemView(self, {k: list(v) for k, v in st.bytes.items()}, st.mem, dict(st.typed))
         cx = Ctx(self, f2, args, old, state=st)
         cx.fn_params = f2.params if f2 is not None else [(t, None, ()) for t, _ in ins.args]
         cx.ghost = st.ghost
@@ -1404,7 +1451,7 @@ class Executor(Engine):
                     st.ext_stores.append((self.ptr_to_bv(p), n, fr.fn.demangled, ins.line))
                 self.havoc(st, p, n, 'call_' + tag)
         rv = self._ret_value(ins, tag)
-        new = MemView(self, st.bytes, st.mem)
+        new = MemView(self, st.bytes, st.mem, dict(st.typed))
         cx2 = Ctx(self, f2, args, old, new=new, result=rv, state=st)
         cx2.fn_params = cx.fn_params
         cx2.ghost = st.ghost
@@ -1416,7 +1463,7 @@ class Executor(Engine):
 
     def _apply_model(self, st, ins, c, args, f2):
         fr = st.frames[-1]
-        cx = Ctx(self, f2, args, MemView(self, st.bytes, st.mem), state=st)
+        cx = Ctx(self, f2, args, MemView(self, st.bytes, st.mem, dict(st.typed)), state=st)
         cx.ghost = st.ghost
         cx.log = st.log
         cx.ins = ins
